@@ -1230,23 +1230,49 @@ def inline_accessor(fb, call):
     c = call.get("callee") or {}
     if "obj" in call:
         o = strip_all_casts(call["obj"])
-        if o.get("k") != "this" or not c.get("const"):
+        if o.get("k") != "this":
             return None
     g = fb.resolve_call(call)
     if g is None or g.body is None:
         return None
     body = g.body.get("body", []) if g.body.get("k") == "compound" else [g.body]
+    # `T& a = <expr>; const auto b = <expr>; return <expr>;` — named parts of one expression, each defined once
+    named = {}
+    while len(body) > 1 and body[0].get("k") == "decl" and len(body[0].get("vars", [])) == 1 and isinstance(body[0]["vars"][0].get("init"), dict) and \
+            not body[0]["vars"][0].get("static"):
+        v = body[0]["vars"][0]
+        named[v["decl"]] = v["init"]
+        body = body[1:]
     if len(body) != 1 or body[0].get("k") != "return" or not isinstance(body[0].get("e"), dict):
         return None
     args = effective_call(call).get("args", [])
     if len(args) != len(g.params):
         return None
     e = body[0]["e"]
+    if named:
+        if any(len(ds) != 1 for d, ds in local_defs(g).items() if d in named):
+            return None
+        for _ in range(len(named)):
+            e = substitute(e, named)
     pd = {p["decl"] for p in g.params}
+    pure_std = ("back", "front", "data", "size", "begin", "end", "cbegin", "cend", "empty", "at", "length")
     for x in walk(e):
         if x.get("k") == "ref" and x.get("dk") in ("local", "param") and x.get("decl") not in pd:
             return None
         if x.get("k") in ("assign", "cassign", "lambda") or (x.get("k") == "un" and x.get("op") in ("pre++", "post++", "pre--", "post--")):
+            return None
+        if "obj" in call and not c.get("const") and x.get("k") == "call":
+            # a non-const member counts when its expression cannot change the object: const callees, value accessors of std containers
+            # (operator[] of a vector / array / string, not of a map, which inserts)
+            cc = x.get("callee") or {}
+            nmq = cc.get("name") or ""
+            if cc.get("const") or (x.get("op") is not None and "obj" not in x):
+                continue
+            if nmq.startswith("std::") and (cc.get("nm") in pure_std or (cc.get("nm") == "operator[]" and
+                                                                        nmq.split("<")[0] in ("std::vector::operator[]", "std::array::operator[]", "std::basic_string::operator[]"))):
+                continue
+            if "obj" not in x and not cc.get("rec"):
+                continue  # free function
             return None
     return substitute(e, {p["decl"]: a for p, a in zip(g.params, args)})
 
